@@ -121,7 +121,7 @@ Section Refinement.
   Variable cut : list N -> list (list N).
 
   (** the statement of the kernel theorem (L2-L6) *)
-  Hypothesis kernel_ok : forall a b, a <= MAX64 -> b <= MAX64 -> kernel a b = primes_between a b.
+  Hypothesis kernel_ok : forall a b, a <= b -> b <= MAX64 -> kernel a b = primes_between a b.
   Hypothesis cut_ok : forall l, concat (cut l) = l /\ Forall nonempty (cut l).
 
   Notation gen_next_loop := (gen_next_loop nextDist maxGap kernel cut).
